@@ -40,6 +40,22 @@ impl fmt::Display for Plain {
     }
 }
 
+// a bare integer payload (serde: a number, not a struct) - used by the C16 round trips, where the
+// payload's own serialised form matters; tid is the value, val is derived from it
+impl Payload for u64 {
+    fn make(tid: u64, _val: u64) -> Self {
+        tid
+    }
+    fn tid(&self) -> u64 {
+        *self
+    }
+    fn val(&self) -> u64 {
+        self.wrapping_mul(1_000_003)
+    }
+    fn set_val(&mut self, _v: u64) {}
+}
+
+
 // --------------------------------------------------------------------- Tok
 //
 // Heap-owning payload with an observable destructor.  The drop table stores
